@@ -83,12 +83,14 @@ def rule_content_rows(ctx, rep):
     tb = model.func('block_tokenizer.tokenize_block')
     bad = {}
     n = 0
+    active_types = blockproto.default_block_types(ctx)
     for cname, lines, want, left in CONTENT_ROWS:
         cls = model.cls('block_token.' + cname)
         rd = cls.lookup('read')[1]
         rep.instance(rule)
         it = Interp(model, loop_bound=16, while_bound=16)
         it.reset_run(Oracle())
+        it.gstate[(PKG + '.block_token', '_token_types')] = list(active_types)
         got = []
 
         def h(interp, fi, args, kwargs, got=got):
